@@ -18,7 +18,7 @@
      [join_dots p] is the dotted string of p.  Every path vouch passes is proper.
    All theorems hold for every configuration (values present, absent, zero, empty, malformed at
    any level) and every such path. *)
-From Verif Require Import Lib.Base Model.C19_Hierarchy Proofs.C19 Proofs.C19_History Check.C19 Proofs.C19_Check.
+From Verif Require Import Lib.Base Model.C19_Hierarchy Proofs.C19 Proofs.C19_History Check.C19 Proofs.C19_Check Proofs.C19_Levels.
 Local Open Scope list_scope.
 
 Notation len := List.length.
@@ -270,6 +270,42 @@ Proof.
 Qed.
 Print Assumptions C19_monotone.
 
+(* ---- the levels of a path are its DOTTED prefixes and nothing else ---- *)
+(* The result is a function of the raw values at the candidate keys - (first j components of p) ++
+   [setting], j = 1..|p| - and of the top-level reading.  Whatever else the configuration holds,
+   e.g. a value for a path that shares the text of a component up to a ':' , '/' , '-' or '_'
+   ("eth2client.localhost" against the path "eth2client.localhost:5052"), is never consulted: the
+   only separator of levels is '.'. *)
+Theorem C19_only_dotted_prefixes_are_levels :
+  forall (V : Type) (has : raw -> bool) (conv : raw -> V) (top : config -> V) (setting : comp)
+         (c c' : config) (p : path),
+    dot_free setting = true -> wf_path p ->
+    (forall j, (1 <= j <= len p)%nat -> get c' (firstn j p ++ [setting]) = get c (firstn j p ++ [setting])) ->
+    top c' = top c ->
+    lookup_s has conv top setting c' (join_dots p) = lookup_s has conv top setting c (join_dots p).
+Proof.
+  intros V has conv top setting c c' p Hs Hp Hsame Htop.
+  rewrite !lookup_s_join by assumption.
+  exact (lookup_only_candidate_keys has conv top setting c c' p Hsame Htop).
+Qed.
+Print Assumptions C19_only_dotted_prefixes_are_levels.
+
+(* ... so a leaf added at a key that no candidate key is a prefix of (neither a candidate key
+   itself nor anything below one), and that leaves the top-level reading alone, changes nothing. *)
+Theorem C19_value_at_other_key_is_ignored :
+  forall (V : Type) (has : raw -> bool) (conv : raw -> V) (top : config -> V) (setting : comp)
+         (c : config) (p : path) (key : path) (r : raw),
+    dot_free setting = true -> wf_path p ->
+    (forall j, (1 <= j <= len p)%nat -> prefixb (firstn j p ++ [setting]) key = false) ->
+    top ((key, r) :: c) = top c ->
+    lookup_s has conv top setting ((key, r) :: c) (join_dots p) = lookup_s has conv top setting c (join_dots p).
+Proof.
+  intros V has conv top setting c p key r Hs Hp Hno Htop.
+  rewrite !lookup_s_join by assumption.
+  exact (lookup_add_elsewhere has conv top setting c p key r Hno Htop).
+Qed.
+Print Assumptions C19_value_at_other_key_is_ignored.
+
 (* The top level of the addresses: beacon-node-addresses unless it yields a nil slice, then
    beacon-node-address. *)
 Theorem C19_addresses_top_level :
@@ -385,4 +421,33 @@ Example C19_concurrent_example :
 Proof.
   cbn zeta. repeat split; try (vm_compute; reflexivity).
   cbn [same_answer slice_items]. intros H. specialize (H eq_refl). discriminate H.
+Qed.
+
+(* client addresses as path components (what clients.go passes): ':' and '/' are not separators.
+   The values configured for the OTHER clients "localhost" and "http" are not levels of
+   eth2client.localhost:5052 / eth2client.http://beacon:5052 (what a lop-off at the last '.' or ':'
+   gets wrong); the hypotheses of C19_value_at_other_key_is_ignored are met. *)
+Example C19_address_path_example :
+  let rmu := "reduced-memory-usage" in
+  let c0 := [ ([rmu], RBool false); (["eth2client"; "remote:5052"; rmu], RBool true) ] in
+  let c := (["eth2client"; "http"; rmu], RBool true) :: (["eth2client"; "localhost"; rmu], RBool true) :: c0 in
+  let p := ["eth2client"; "localhost:5052"] in
+  path_of_string "eth2client.http://beacon:5052" = ["eth2client"; "http://beacon:5052"] /\
+  wf_path p /\ join_dots p = "eth2client.localhost:5052" /\
+  hierarchical_bool rmu c "eth2client.localhost:5052" = false /\
+  hierarchical_bool rmu c "eth2client.http://beacon:5052" = false /\
+  hierarchical_bool rmu c "eth2client.localhost" = true /\
+  hierarchical_bool rmu c "eth2client.remote:5052" = true /\
+  hierarchical_bool rmu c "eth2client.remote:5052.zz" = true /\
+  (forall j, (1 <= j <= len p)%nat -> prefixb (firstn j p ++ [rmu]) ["eth2client"; "localhost"; rmu] = false) /\
+  bool_top rmu ((["eth2client"; "localhost"; rmu], RBool true) :: c0) = bool_top rmu c0 /\
+  P_b {| c_id := 0; c_cfg := c; c_deflevel := 0%Z; c_queries := [QBool rmu "eth2client.localhost:5052" false];
+         c_parallel := []; c_later := [] |} = true /\
+  P_b {| c_id := 1; c_cfg := c; c_deflevel := 0%Z; c_queries := [QBool rmu "eth2client.localhost:5052" true];
+         c_parallel := []; c_later := [] |} = false.
+Proof.
+  cbn zeta. repeat split; try (vm_compute; reflexivity); try discriminate.
+  - repeat constructor.
+  - intros j Hj. cbn [len] in Hj.
+    assert (j = 1%nat \/ j = 2%nat) as [-> | ->] by lia; vm_compute; reflexivity.
 Qed.
